@@ -25,6 +25,7 @@ type HarnessSpec struct {
 	Steps    int64    `json:"steps"`
 	Bounds   string   `json:"bounds"`
 	NoNative bool     `json:"no_native"` // harness cannot run natively (uses executor-only stubs)
+	Schedule bool     `json:"schedule"`  // violations depend on a schedule (select choices) that a native run cannot be forced into: confirmed by re-executing the real code in the interpreter under the recorded schedule
 	SolverMs int      `json:"solver_ms"`
 	Solver   string   `json:"solver"`
 }
@@ -56,6 +57,7 @@ type ReplayCase struct {
 	Label   string            `json:"label,omitempty"`
 	Kind    string            `json:"kind,omitempty"`
 	Vector  map[string]string `json:"vector"`
+	Sched   []int             `json:"schedule,omitempty"`
 	Expect  string            `json:"expect"` // "fail:<label>" | "pass"
 }
 
@@ -253,7 +255,7 @@ func runCheck(id, tier, replay string) int {
 	validated := 0
 	var replayNotes []string
 	for _, v := range viols {
-		replayCases = append(replayCases, ReplayCase{Harness: v.h.Func, Pkg: v.h.Pkg, Label: v.ob.Label, Kind: v.ob.Kind, Vector: v.ob.Model, Expect: "fail:" + v.ob.Label})
+		replayCases = append(replayCases, ReplayCase{Harness: v.h.Func, Pkg: v.h.Pkg, Label: v.ob.Label, Kind: v.ob.Kind, Vector: v.ob.Model, Sched: v.ob.Sched, Expect: "fail:" + v.ob.Label})
 	}
 	knownLabel := func(harness, label string) bool {
 		for _, k := range known.Findings {
@@ -280,7 +282,7 @@ func runCheck(id, tier, replay string) int {
 				cfg.StepBudget = h.Steps
 			}
 		}
-		p := runPath(ld.prog, fn, cfg, nil, nil, rc.Vector)
+		p := runPathSched(ld.prog, fn, cfg, nil, nil, rc.Vector, rc.Sched)
 		failed := map[string]bool{}
 		for _, ob := range p.obligations {
 			if ob.Result == "sat" {
@@ -349,11 +351,15 @@ func runCheck(id, tier, replay string) int {
 				reproduced = contains(nr.Failures, v.ob.Label)
 			}
 			how = "native go test replay"
+			if !reproduced && v.h.Schedule && concreteOK[idx] {
+				reproduced = true
+				how = "re-execution of the real code in the interpreter on the model's inputs under the recorded schedule of select/iteration choices (a native run cannot be forced into that schedule; the native replay of the same inputs took another schedule and passed)"
+			}
 		}
 		os.MkdirAll(replayDir, 0o755)
 		h := sha256.Sum256([]byte(v.h.Func + v.ob.Label))
 		rpath := filepath.Join(replayDir, fmt.Sprintf("%s-%x.json", v.h.Func, h[:4]))
-		rf := ReplayFile{Property: id, Cases: []ReplayCase{{Harness: v.h.Func, Pkg: v.h.Pkg, Label: v.ob.Label, Kind: v.ob.Kind, Vector: v.ob.Model, Expect: "fail:" + v.ob.Label}}}
+		rf := ReplayFile{Property: id, Cases: []ReplayCase{{Harness: v.h.Func, Pkg: v.h.Pkg, Label: v.ob.Label, Kind: v.ob.Kind, Vector: v.ob.Model, Sched: v.ob.Sched, Expect: "fail:" + v.ob.Label}}}
 		data, _ := json.MarshalIndent(rf, "", " ")
 		os.WriteFile(rpath, data, 0o644)
 		if !reproduced {
